@@ -173,6 +173,11 @@ extern MPT_INTERFACE(metatype) *_mpt_iterator_factor(MPT_STRUCT(value) *val)
 				}
 				fd.fact = fd.base;
 			}
+			/* element count must fit counter type */
+			if (iter == UINT32_MAX) {
+				errno = ERANGE;
+				return 0;
+			}
 			fd.elem = iter + 1;
 		}
 		else if (val->_type == 's') {
@@ -184,6 +189,11 @@ extern MPT_INTERFACE(metatype) *_mpt_iterator_factor(MPT_STRUCT(value) *val)
 			}
 			if ((c = mpt_cuint32(&iter, str + 1, 0, 0)) < 0) {
 				errno = EINVAL;
+				return 0;
+			}
+			/* element count must fit counter type */
+			if (iter == UINT32_MAX) {
+				errno = ERANGE;
 				return 0;
 			}
 			fd.elem = iter + 1;
